@@ -174,7 +174,8 @@ def rule_r2(F, rep):
     rep.floor(R, n, 4, "binder insertion sites with a duplicate rule")
     # positional after named; import paths
     fn = F.fn("<%s>::analyze_expr" % A)
-    errs = {s["rv"]["v"] for bb, si, s in fn.body.assigns() if s["rv"]["k"] == "agg" and s["rv"].get("adt") == AERR}
+    errs = {s["rv"]["v"] for g in _with_new_callees(F, fn) for bb, si, s in g.body.assigns()
+            if s["rv"]["k"] == "agg" and s["rv"].get("adt") == AERR}
     for e in ("PositionalArgAfterNamed", "ComputedImportPath", "TextBlockAsImportPath", "UnknownVariable",
               "SelfOutsideObject", "DollarOutsideObject", "SuperOutsideObject"):
         ok = e in errs
@@ -183,6 +184,24 @@ def rule_r2(F, rep):
             rep.violation(R, "%s|missing|%s" % (fn.q, e), "analyze_expr never reports AnalyzeError::%s" % e, fn.loc)
     # import operands: only a String literal path is accepted, per import kind
     _import_table(F, rep, R, fn)
+
+
+def _with_new_callees(F, fn):
+    """fn and, transitively, the local functions it calls that did not exist on the reference tree (extracted helpers)"""
+    out, work = [fn], [fn]
+    seen = {fn.q}
+    while work:
+        g = work.pop()
+        for bb, t in g.body.calls():
+            f = t["f"]
+            q = f.get("r") if f.get("rlocal") else None
+            if q and q not in seen and F.is_new_fn(q):
+                h = F.fn_opt(q)
+                if h is not None and h.body is not None:
+                    seen.add(q)
+                    out.append(h)
+                    work.append(h)
+    return out
 
 
 def _errors_reachable_without(body, start, avoid, succ):
@@ -201,27 +220,37 @@ def _import_table(F, rep, R, fn):
     EK = "rsjsonnet_lang::ast::ExprKind"
     body = fn.body
     kinds = F.variants(EK)
-    # find the three inner `match path_ast.kind` dispatches: discriminant reads of ExprKind through Import*.0
-    fl = envflow.FnEnvFlow(F, fn)
+    # the arms of the dispatch on the expression's own kind (the switch on an ExprKind discriminant with the most targets);
+    # each import arm is walked from its entry, helper functions introduced later are walked in place, and the first ExprKind
+    # discriminant read on the way is the operand's kind
+    best = None
+    for i, b in enumerate(body.blocks):
+        t = b["t"]
+        if t["k"] != "switch" or not b["s"]:
+            continue
+        last = [x for x in b["s"] if x["k"] == "assign"]
+        if last and last[-1]["rv"]["k"] == "discr" and last[-1]["rv"].get("adt") == EK:
+            if best is None or len(t["arms"]) > len(body.blocks[best]["t"]["arms"]):
+                best = i
+    if best is None or len(body.blocks[best]["t"]["arms"]) < len(kinds) // 2:
+        raise kwalk.WalkLimit("analyze_expr: dispatch on the expression kind not found")
+    byd = F.variant_by_discr(EK)
     sites = []
-    for bb, si, s in body.assigns():
-        rv = s["rv"]
-        if rv["k"] == "discr" and rv.get("adt") == EK:
-            x = dict(rv["p"])
-            x["k"] = "copy"
-            path = fl.ast_path(x)
-            imp = [p for p in path if p.startswith("ExprKind.Import")]
-            if imp:
-                sites.append((bb, si, imp[0].split(".")[1], s))
+    for v, tgt in body.blocks[best]["t"]["arms"]:
+        nm = byd.get(v)
+        if nm and nm.startswith("Import"):
+            sites.append((tgt, nm))
     heads = set()
     for b0, i0, s0 in body.assigns():
         if s0["rv"]["k"] == "discr" and s0["rv"].get("adt") == "<%s>::analyze_expr::State" % A:
             heads.add(b0)
-    for bb, si, which, s in sites:
+    for bb, which in sites:
         for k in kinds:
-            def after(w, b2, i2, s2, env, k=k, bb=bb, si=si):
-                if b2 == bb and i2 == si:
-                    env[w.norm(env, s2["rv"]["p"])] = ("var", EK, k)
+            def after(w, b2, i2, s2, env, k=k):
+                rv2 = s2["rv"]
+                if rv2["k"] == "discr" and rv2.get("adt") == EK and not env.get("#operand-kind"):
+                    env["#operand-kind"] = 1
+                    env[w.norm(env, rv2["p"])] = ("var", EK, k)
                     env[w.norm(env, s2["p"])] = w.discr_of_variant(EK, k)
 
             def on_stmt(w, b2, i2, s2, env):
@@ -232,19 +261,22 @@ def _import_table(F, rep, R, fn):
                 return None
 
             def on_term(w, b2, t2, env):
-                if b2 in heads:
+                if not w.pre and b2 in heads:
                     return kwalk.STOP
                 return None
             w = kwalk.Walker(F, body, after_stmt=after, on_stmt=on_stmt, on_term=on_term, want_ret=True, max_states=50000,
                              refine=False, keep_ints=True)
-            # walk only from this block to the first return / state assignment
-            outs = w.run(bb, {}, si)
-            marks = set()
+            outs = w.run(bb, {})
+            got_err, got_ir = set(), set()
+            per_path = []
             for kind, ms, ret in outs:
-                for m in ms:
-                    marks.add(m)
-            got_err = {m[1] for m in marks if m[0] == "err"} & {"ComputedImportPath", "TextBlockAsImportPath"}
-            got_ir = {m[1] for m in marks if m[0] == "ir"}
+                e = {m[1] for m in ms if m[0] == "err"} & {"ComputedImportPath", "TextBlockAsImportPath"}
+                i = {m[1] for m in ms if m[0] == "ir"}
+                per_path.append((e, i))
+                got_err |= e
+                got_ir |= i
+            # an IR node built on a path that also returned an error is not an accepted import (the `?` left before it)
+            got_ir = {x for e, i in per_path if not e for x in i}
             if k == "String":
                 ok = which in got_ir and not got_err
             elif k == "TextBlock":
